@@ -37,5 +37,21 @@ func (p *PFCPIface) VerifUP4Stats() map[string]int {
 		st["sess_free"] = up4.sessMeterCellIDsPool.Cardinality()
 	}
 
+	// cells the meters map accounts for, per pool
+	app, sess := map[uint32]bool{}, map[uint32]bool{}
+	for _, m := range up4.meters {
+		cells := app
+		if m.meterType == meterTypeSession {
+			cells = sess
+		}
+
+		cells[m.uplinkCellID] = true
+		cells[m.downlinkCellID] = true
+	}
+
+	delete(app, 0)
+	delete(sess, 0)
+	st["app_held"], st["sess_held"] = len(app), len(sess)
+
 	return st
 }
